@@ -423,7 +423,8 @@ def check_case(ctx, case):
     if E is None:
         acc.count("empty-extent")
         return
-    border, scale = cfg.get("border", 5), cfg.get("scale", 1.0)
+    eff = case.get("eff") or cfg
+    border, scale = eff.get("border", 5), eff.get("scale", 1.0)
     vx, vy, vw, vh = expected_root(E, border, scale)
     if "viewBox" not in given:
         got = a.get("viewBox", "")
@@ -472,8 +473,37 @@ def run_shard(ctx):
         doc, root_attrs = g.document()
         cfg = dict(auto=False, border=rng.choice([0, 1, 5, 5, 12, 100]), scale=rng.choice([0.5, 1.0, 1.0, 1.5, 2.0, 3.0]))
         nontrivial = len(g.kinds) >= 2 or bool(g.feats & {"group-transform", "clip-path"}) or bool(root_attrs)
-        case = dict(input=doc.encode(), cfg=cfg, known={k: [fmt(v) for v in b.tuple()] for k, b in g.known.items()},
+        # how border and scale reach the transform: through the API configuration, through <config> elements (one, or one per
+        # setting), or split between the two; an unrelated <config> must leave the settings in force alone
+        run_cfg = dict(cfg)
+        how = rng.choice(["api", "api", "api", "config-one", "config-two", "api+unrelated-config", "api-border+config-scale", "config-border+api-scale"])
+        lines = doc.split("\n")
+        ins = []
+        if how == "config-one":
+            run_cfg.pop("border"), run_cfg.pop("scale")
+            ins = ['<config border="%s" scale="%s"/>' % (cfg["border"], cfg["scale"])]
+        elif how == "config-two":
+            run_cfg.pop("border"), run_cfg.pop("scale")
+            ins = ['<config border="%s"/>' % cfg["border"], '<config scale="%s"/>' % cfg["scale"]]
+            rng.shuffle(ins)
+        elif how == "api+unrelated-config":
+            ins = ['<config %s/>' % rng.choice(['seed="7"', 'loop-limit="50"', 'font-family="serif"', 'depth-limit="40"'])]
+        elif how == "api-border+config-scale":
+            run_cfg.pop("scale")
+            ins = ['<config scale="%s"/>' % cfg["scale"]]
+        elif how == "config-border+api-scale":
+            run_cfg.pop("border")
+            ins = ['<config border="%s"/>' % cfg["border"]]
+        for c_el in ins:
+            # top-level lines only: lines[0] is the root start tag, lines[-2] the root end tag
+            tops = [i for i in range(1, len(lines) - 1) if lines[i].startswith("  <") and not lines[i].startswith("  </")]
+            at = rng.choice(tops) if tops and rng.random() < 0.5 else 1
+            lines.insert(at, "  " + c_el)
+        if ins:
+            doc = "\n".join(lines)
+        g.feats.add("settings-via." + how)
+        case = dict(input=doc.encode(), cfg=run_cfg, eff=dict(border=cfg["border"], scale=cfg["scale"]), known={k: [fmt(v) for v in b.tuple()] for k, b in g.known.items()},
                     text_ids=sorted(g.text_ids), root_attrs=root_attrs, feats=sorted(g.feats | {"kind." + k for k in g.kinds}), nontrivial=nontrivial)
         check_case(ctx, case)
         if j < 2:
-            acc.sample(dict(input=doc, cfg=cfg))
+            acc.sample(dict(input=doc, cfg=run_cfg))
